@@ -221,6 +221,10 @@ pub struct Monitor<'a> {
     op_index: usize,
     pub changed_px: u64,
     pub unchanged_px: u64,
+    /// a known finding has put an invalid pixel into a buffer: validity is no longer asserted in this scene
+    tainted: bool,
+    /// the buffer being checked is a layer buffer or the destination of pop_layer
+    layer_dest: bool,
 }
 
 struct DrawModel {
@@ -257,11 +261,18 @@ impl<'a> Monitor<'a> {
             op_index: 0,
             changed_px: 0,
             unchanged_px: 0,
+            tainted: false,
+            layer_dest: false,
         }
     }
 
     fn viol(&mut self, tag: &str, what: String) {
         let w = format!("op #{}: {}", self.op_index, what);
+        // a wrong pixel in a layer buffer, or in what pop_layer composites, is a breach of the layer
+        // contract as well as of the rule it breaks
+        if self.layer_dest && (tag == "C02" || tag == "C03" || tag == "C05") && !self.out.violations.iter().any(|v| v.tag == "C06" && v.what == w) {
+            self.out.viol("C06", w.clone());
+        }
         self.out.viol(tag, w);
     }
 
@@ -522,6 +533,7 @@ impl<'a> Monitor<'a> {
                         // known: sw-composite's Color formula itself returns invalid pixels
                         let formula_invalid = mode == BlendMode::Color && s_opt.map(|s| !valid_premul(blend_of_record(mode)(s, d))).unwrap_or(false);
                         if formula_invalid && self.known.active("C18", "sw-composite-color-blend-invalid") {
+                            self.tainted = true;
                             self.out.known.push(("C18:sw-composite-color-blend-invalid".to_string(), format!("Color blend of s={} over d={} gives {}", hex(s_opt.unwrap()), hex(d), hex(o))));
                         } else if !reported[1] {
                             reported[1] = true;
@@ -689,6 +701,7 @@ impl<'a> Monitor<'a> {
                     }
                 };
                 // destination: the parent
+                self.layer_dest = true;
                 if nl >= 2 {
                     let (pb, prect) = &before.1[nl - 2];
                     let (pa, _) = &after.1[nl - 2];
@@ -705,6 +718,7 @@ impl<'a> Monitor<'a> {
                     let b = IntRect::new(IntPoint::new(0, 0), IntPoint::new(self.w, self.h));
                     self.check_dest("pop_layer", &before.0, &after.0, b, &cov, Some(&srcf), info.mode, None, false);
                 }
+                self.layer_dest = false;
                 self.st.add("pop_layer_checked", 1);
             }
             _ => {
@@ -788,10 +802,12 @@ impl<'a> Monitor<'a> {
                 if nl > 0 {
                     let (lb, lrect) = &before.1[nl - 1];
                     let (la, _) = &after.1[nl - 1];
+                    self.layer_dest = true;
                     match srcf.as_ref() {
                         Some(f) => self.check_dest(name, lb, la, *lrect, &cov, Some(f), model.mode, model.hull, model.noop),
                         None => self.check_dest(name, lb, la, *lrect, &cov, None, model.mode, model.hull, model.noop),
                     }
+                    self.layer_dest = false;
                     if after.0 != before.0 {
                         self.viol("C06", format!("{} inside a layer changed the surface", name));
                     }
@@ -828,6 +844,27 @@ impl<'a> Monitor<'a> {
                     }
                 }
                 self.st.add(&format!("op:{}", name), 1);
+            }
+        }
+        // C18 by induction: the scene starts from valid pixels and draws valid sources only, so every pixel
+        // of every buffer must be valid after every call (layers included, whatever they are filled with)
+        if !self.tainted {
+            let snap = self.snapshot();
+            let mut bad: Option<String> = None;
+            if let Some(k) = snap.0.iter().position(|p| !valid_premul(*p)) {
+                bad = Some(format!("surface pixel ({},{}) = {}", k as i32 % self.w.max(1), k as i32 / self.w.max(1), hex(snap.0[k])));
+            }
+            for (li, (buf, _)) in snap.1.iter().enumerate() {
+                if let Some(k) = buf.iter().position(|p| !valid_premul(*p)) {
+                    bad = Some(format!("pixel #{} of the layer at depth {} = {}", k, li, hex(buf[k])));
+                }
+            }
+            self.st.add("buffers_scanned_for_premultiplied_validity", 1 + snap.1.len() as u64);
+            if let Some(b) = bad {
+                if !self.out.violations.iter().any(|v| v.tag == "C18") {
+                    self.viol("C18", format!("after {}: {} is not a valid premultiplied pixel", op.name(), b));
+                }
+                self.tainted = true;
             }
         }
         self.op_index += 1;
@@ -880,7 +917,11 @@ fn gen_draw(rng: &mut crate::prng::Rng, w: i32, h: i32, prof: &SceneProfile, sin
             Op::Stroke(p, src, random_style(rng, 4.), o)
         }
         6 | 7 => {
-            if rng.chance(0.6) {
+            if rng.chance(0.15) {
+                // exactly the surface, or more than it
+                let g = rng.int(0, 3) as f32;
+                Op::FillRect(-g, -g, w as f32 + 2. * g, h as f32 + 2. * g, src, o)
+            } else if rng.chance(0.6) {
                 Op::FillRect(rng.int(-2, w as i64) as f32, rng.int(-2, h as i64) as f32, rng.int(-2, w as i64 + 2) as f32, rng.int(-2, h as i64 + 2) as f32, src, o)
             } else {
                 Op::FillRect(rng.range(-2., w as f64) as f32, rng.range(-2., h as f64) as f32, rng.range(0.2, w as f64 + 2.) as f32, rng.range(0.2, h as f64 + 2.) as f32, src, o)
@@ -919,9 +960,14 @@ fn gen_clip(rng: &mut crate::prng::Rng, w: i32, h: i32) -> Op {
             _ => Op::PushClipRect(x0, y0, x0 + rng.int(1, w as i64 + 3) as i32, y0 + rng.int(1, h as i64 + 3) as i32),
         }
     } else {
-        let p = match rng.below(4) {
+        let p = match rng.below(5) {
             0 => rect_path(0., 0., w as f32, h as f32), // fully covering path
             1 => small_shape(rng, w, h),
+            4 => {
+                // an integer rectangle path, also spanned "backwards" (negative width or height)
+                let (x, y) = (rng.int(0, w as i64) as f32, rng.int(0, h as i64) as f32);
+                rect_path(x, y, rng.int(-(w as i64), w as i64) as f32, rng.int(-(h as i64), h as i64) as f32)
+            }
             _ => { let c = rng.chance(0.3); random_path(rng, w, h, c) },
         };
         Op::PushClip(p)
@@ -937,6 +983,16 @@ pub fn gen_scene(rng: &mut crate::prng::Rng, prof: &SceneProfile) -> Scene {
         0 => {
             w = rng.int(33, 90) as i32;
             h = rng.int(1, 3) as i32;
+        }
+        2 if rng.chance(0.012) => {
+            // wider than any plausible chunk size
+            w = rng.int(1025, 2100) as i32;
+            h = rng.int(1, 2) as i32;
+        }
+        3 if rng.chance(0.008) => {
+            // more than 65536 pixels
+            w = rng.int(257, 400) as i32;
+            h = rng.int(257, 330) as i32;
         }
         1 => {
             h = rng.int(33, 70) as i32;
@@ -980,6 +1036,15 @@ pub fn gen_scene(rng: &mut crate::prng::Rng, prof: &SceneProfile) -> Scene {
                 let k = open.iter().rposition(|c| *c == 'c').unwrap();
                 open.remove(k);
                 ops.push(Op::PopClip);
+                // ... and a clip rectangle of the same size somewhere else may follow, then a clear
+                if let Some(Op::PushClipRect(x0, y0, x1, y1)) = ops.iter().rev().find(|o| matches!(o, Op::PushClipRect(..))).cloned() {
+                    if rng.chance(0.5) {
+                        let (dx, dy) = (rng.int(-3, 3) as i32, rng.int(-3, 3) as i32);
+                        ops.push(Op::PushClipRect(x0 + dx, y0 + dy, x1 + dx, y1 + dy));
+                        open.push('c');
+                        ops.push(Op::Clear(premul_pixel(rng)));
+                    }
+                }
             } else {
                 match open.pop().unwrap() {
                     'c' => ops.push(Op::PopClip),
